@@ -565,6 +565,18 @@ func runHandshakes(s *kernel.Sim, c *scen.Case) {
 	tw.ServerToken(srvCfg)
 	srvCfg.SessionCache = w.srvCache
 	srv := server.New(srvCfg)
+	if t.Chance("per-command-config", 1, 2) {
+		// the application keeps one policy object per command and hands the same object to
+		// every connection (the natural use of the hook)
+		perCmd := *srvCfg
+		srv.SecurityConfigForCommand = func(cmd int) *security.SecurityConfig {
+			if cmd == echoCmd {
+				return &perCmd
+			}
+			return nil
+		}
+		shape += "/percmd"
+	}
 	srv.Handle(echoCmd, func(hctx context.Context, c *server.Conn) error {
 		m := message.NewMessageFromStream(c.Stream)
 		b, err := m.GetBytes(hctx, 12)
